@@ -149,7 +149,9 @@ def caller_case(draw):
     toks = X.tokens_of(ast)
     gaps = draw(st.lists(st.sampled_from(["", " ", " ", "\t"]), min_size=len(toks), max_size=len(toks)))
     text = X.join_tokens(toks, gaps)
-    return {"ast": ast, "text": text, "ctx": ctx, "consts": consts, "compiled": draw(st.booleans()), "via": draw(st.sampled_from(["array", "enum", "define"]))}
+    more = [{"a": draw(st.integers(0, 6)), "b": draw(st.integers(0, 6))} for _ in range(draw(st.integers(0, 3)))]
+    return {"ast": ast, "text": text, "ctx": ctx, "consts": consts, "compiled": draw(st.booleans()), "via": draw(st.sampled_from(["array", "enum", "define"])),
+            "more": more, "shadow": [draw(st.integers(0, 9)), draw(st.integers(0, 9))], "defines_after": draw(st.booleans())}
 
 
 # ---------------------------------------------------------------- enumeration
@@ -337,7 +339,11 @@ def _run_callers(case, ctx, m):
         if n > 4096:
             ctx.count("callers:too-long-skipped")
             return
-        r = lib(cs.load, defs + f"struct T {{ uint8 a; uint8 b; uint8 arr[{text}]; uint8 tail; }};", compiled=case["compiled"])
+        uses_fields = bool(X.features(ast)["ids"] & {"a", "b"})
+        sdef = f"struct T {{ uint8 a; uint8 b; uint8 arr[{text}]; uint8 tail; }};"
+        # constants may also be defined AFTER the structure that uses them, when the count depends on a field anyway
+        after = bool(case.get("defines_after")) and uses_fields
+        r = lib(cs.load, (sdef + "\n" + defs) if after else (defs + sdef), compiled=case["compiled"])
         if isinstance(r, Err):
             raise Violation("well-formed-rejected", f"array length [{text}] rejected at load: {r}", r.where)
         data = bytes([c["a"], c["b"]]) + bytes((i * 7 + 1) & 0xFF for i in range(n)) + b"\xEE"
@@ -346,6 +352,26 @@ def _run_callers(case, ctx, m):
             raise Violation("evaluate-raised", f"arr[{text}] a={c['a']} b={c['b']} consts={consts}: {obj} (expected {n} elements)", obj.where)
         if len(obj.arr) != n or obj.tail != 0xEE:
             raise Violation("wrong-value", f"arr[{text}] a={c['a']} b={c['b']} consts={consts}: {len(obj.arr)} elements, expected max(0,{want})")
+        # the same loaded type read again with other field values, back to the first ones, and after constants named
+        # like the fields were defined: the count is evaluated per read, the fields just read come first
+        seq = list(case.get("more") or []) + [c]
+        shadowed = False
+        for idx, c2 in enumerate(seq):
+            if idx == len(seq) - 1 and uses_fields and case.get("shadow"):
+                r = lib(cs.load, f"#define a {case['shadow'][0]}\n#define b {case['shadow'][1]}\n")
+                shadowed = not isinstance(r, Err)
+            k2, w2 = _expect(ast, c2, consts)
+            if k2 != "val" or max(0, w2) > 4096:
+                continue
+            n2 = max(0, w2)
+            d2 = bytes([c2["a"], c2["b"]]) + bytes((i * 5 + 3) & 0xFF for i in range(n2)) + b"\xEE"
+            o2 = lib(cs.T, d2)
+            if isinstance(o2, Err) or len(o2.arr) != n2 or o2.tail != 0xEE:
+                raise Violation("wrong-value", f"arr[{text}] read #{idx + 2} of the same type with a={c2['a']} b={c2['b']} consts={consts}{' after constants a, b = ' + str(case['shadow']) + ' were defined' if shadowed else ''}: {o2 if isinstance(o2, Err) else len(o2.arr)!r} elements, expected {n2}")
+        if len(seq) > 1:
+            ctx.count("callers:array:re-read-with-other-fields")
+        if shadowed:
+            ctx.count("callers:array:constants-named-like-the-fields-defined-later")
         ctx.count("callers:array")
     elif via == "enum":
         env = {"P": c["a"], "Q": c["b"]}
@@ -353,6 +379,9 @@ def _run_callers(case, ctx, m):
         if kind != "val":
             raise HarnessError("callers generator out of domain")
         etext = _rename_text(text)
+        if case.get("shadow") and case["shadow"][0] % 2:
+            defs += f"#define P {case['shadow'][0] + 10}\n#define Q {case['shadow'][1] + 20}\n"  # members shadow constants of their name
+            ctx.count("callers:enum:constants-named-like-members")
         r = lib(cs.load, defs + f"enum E : int64 {{ P = {c['a']}, Q = {c['b']}, R = {etext}, S }};", compiled=case["compiled"])
         if isinstance(r, Err):
             raise Violation("well-formed-rejected", f"enum value {etext!r} rejected at load: {r}", r.where)
